@@ -422,3 +422,24 @@ func HeldContinuously(li *LockInfo, path string, mode LockMode, a, b ssa.Instruc
 	}
 	return true
 }
+
+// IsLockOp reports whether in is a Lock/RLock/Unlock/RUnlock call on a sync mutex (deferred ones included).
+func IsLockOp(in ssa.Instruction) bool {
+	_, _, ok := lockOp(in)
+	return ok
+}
+
+// InModule reports whether fn is a hand-written function of the analysed module.
+func InModule(fn *ssa.Function) bool {
+	if fn == nil || fn.Pkg == nil || fn.Pkg.Pkg == nil {
+		if fn != nil && fn.Origin() != nil && fn.Origin() != fn {
+			return InModule(fn.Origin())
+		}
+		return false
+	}
+	if !strings.HasPrefix(fn.Pkg.Pkg.Path(), ModulePath) {
+		return false
+	}
+	f := fn.Prog.Fset.Position(fn.Pos()).Filename
+	return !strings.HasSuffix(f, ".pb.go")
+}
